@@ -15,6 +15,7 @@ static const std::vector<std::pair<std::string, std::vector<std::pair<int, Bytes
 }
 
 Script connect_script(Rng &r, int id_base);   // below (C16)
+static Script connect_conn(Rng &rng, ConnPlan &cp, int id_base);   // CONNECT / upgrade script built into a connection, tunnel payload included
 
 static void conn_from_capture(Rng &rng, ConnPlan &cp, std::vector<Op> &ops, int conn, bool keep_order) {
     const auto &caps = captures();
@@ -46,10 +47,16 @@ static void chaos_plan(Rng &rng, Plan &p, const std::string &prop) {
         bool ordered = false;
         if (src < 4) {
             int n = (int) rng.range(1, 6);
-            Script s = (rng.chance(1, 6)) ? connect_script(rng, 100 * c) : random_script(rng, f, n, 100 * c);
+            bool conn_script = rng.chance(1, 6);
+            Script s = conn_script ? connect_conn(rng, cp, 100 * c) : random_script(rng, f, n, 100 * c);
+            if (conn_script && rng.chance(1, 3)) {
+                // a callback failure placed inside the CONNECT / upgrade exchange (the mode switches happen around these callbacks)
+                static const int HK[] = {HK_RESPONSE_HEADERS, HK_RESPONSE_HEADERS, HK_RESPONSE_LINE, HK_RESPONSE_START, HK_RESPONSE_COMPLETE, HK_REQUEST_HEADERS, HK_REQUEST_COMPLETE, HK_RESPONSE_HEADER_DATA, HK_TRANSACTION_COMPLETE};
+                CbFault cf; cf.hook = HK[rng.below(sizeof HK / sizeof *HK)]; cf.nth = (int) rng.range(1, (int64_t) s.req.size()); cf.action = rng.coin() ? CB_STOP : CB_ERROR; p.cbs.push_back(cf);
+            }
             // stateful body parsers under faults: some requests carry a multipart/form-data body
-            if (rng.chance(1, 4)) { size_t k = rng.below(s.req.size()); if (s.req[k].method != "HEAD" && s.req[k].method != "CONNECT" && s.res[k].interim.empty()) make_multipart_request(rng, s.req[k]); }
-            build_conn_from_script(rng, s, cp, false);
+            if (!conn_script && rng.chance(1, 4)) { size_t k = rng.below(s.req.size()); if (s.req[k].method != "HEAD" && s.req[k].method != "CONNECT" && s.res[k].interim.empty()) make_multipart_request(rng, s.req[k]); }
+            if (!conn_script) build_conn_from_script(rng, s, cp, false);
         } else {
             ordered = rng.coin();
             conn_from_capture(rng, cp, per_conn[(size_t) c], c, ordered);
@@ -1196,7 +1203,7 @@ static void c18_plan(Rng &rng, Plan &p) {
     std::vector<Op> ops;
     int src = (int) rng.below(10);
     if (src < 3) { conn_from_capture(rng, cp, ops, 0, true); }
-    else if (src < 5) { Script s = connect_script(rng, 0); build_conn_from_script(rng, s, cp, false); }
+    else if (src < 5) { connect_conn(rng, cp, 0); }
     else if (src < 7) {
         // compressed response, two layers or lzma now and then
         Script s; MsgSpec q; q.method = "GET"; q.target = "/id0/c18?a=b&c=%64"; { HeaderSpec h; h.name = "Host"; h.value = "c18.example"; q.headers.push_back(h); }
@@ -1342,7 +1349,7 @@ static void c19_plan(Rng &rng, Plan &p) {
         ConnPlan &cp = p.conns[(size_t) c];
         int src = (int) rng.below(10);
         if (src < 5) { Script s = random_script(rng, f, (int) rng.range(1, 5), 100 * c); build_conn_from_script(rng, s, cp, false); }
-        else if (src < 6) { Script s = connect_script(rng, 100 * c); build_conn_from_script(rng, s, cp, false); }
+        else if (src < 6) { connect_conn(rng, cp, 100 * c); }
         else if (src < 7) {   // compressed response: decompressor state is per connection
             Script s; MsgSpec q; q.method = "GET"; q.target = strfmt("/id%d/z", 100 * c); { HeaderSpec h; h.name = "Host"; h.value = "c19.example"; q.headers.push_back(h); }
             MsgSpec r; r.is_request = false; r.status = 200; r.reason = "OK"; Bytes payload; size_t n = (size_t) rng.range(1, 30000); for (size_t i = 0; i < n; i++) payload.push_back((char) ('a' + (i + (size_t) c) % 7));
@@ -1567,9 +1574,20 @@ Script connect_script_ex(Rng &r, int id_base, int kind, int &connect_idx, bool &
 
 Script connect_script(Rng &r, int id_base) {
     int ci; bool tun; Bytes a, b;
-    Script s = connect_script_ex(r, id_base, (int) r.below(3) == 0 ? 1 : 0, ci, tun, a, b);
-    // in the chaos mix the tunnel payload is simply appended as an opaque "message"
-    if (tun && !a.empty()) { MsgSpec m; m.method = std::string(a.data(), a.size()); m.target = ""; m.version = ""; (void) m; }
+    return connect_script_ex(r, id_base, -1, ci, tun, a, b);
+}
+
+// for the scenarios without ground truth: all three kinds (refused / tunnelled CONNECT, 101 upgrade), and the tunnel payload is
+// really sent (a pseudo exchange: the client's opaque bytes, then the server's)
+static Script connect_conn(Rng &rng, ConnPlan &cp, int id_base) {
+    int ci; bool tun; Bytes a, b;
+    Script s = connect_script_ex(rng, id_base, -1, ci, tun, a, b);
+    build_conn_from_script(rng, s, cp, false);
+    if (tun && (!a.empty() || !b.empty())) {
+        Exchange x; x.req.a = (long) cp.stream[0].size(); cp.stream[0] += a; x.req.b = (long) cp.stream[0].size(); x.req_head_end = x.req.b;
+        x.res.a = (long) cp.stream[1].size(); cp.stream[1] += b; x.res.b = (long) cp.stream[1].size(); x.res_head_end = x.res.b;
+        cp.xchg.push_back(x);
+    }
     return s;
 }
 
@@ -1592,6 +1610,13 @@ static void c16_plan(Rng &rng, Plan &p) {
         bool is_connect = cp.stream[0].compare((size_t) cp.xchg[(size_t) ci].req.a, 8, "CONNECT ") == 0;
         if (!is_connect) x.expect.push_back(std::make_pair("@req_after_prev_res", "1"));
         cp.xchg.push_back(x);
+    }
+    // a fault inside the switch: the RESPONSE_HEADERS callback of the 101 answer stops or fails. The answer has been seen all the
+    // same: the request direction must be in tunnel mode afterwards (the client's upgrade payload is not HTTP), the response
+    // direction reports the failure (C09) or TUNNEL.
+    if (tun && cp.stream[0].compare((size_t) cp.xchg[(size_t) ci].req.a, 8, "CONNECT ") != 0 && rng.chance(1, 3)) {
+        CbFault cf; cf.hook = HK_RESPONSE_HEADERS; cf.nth = ci + 1; cf.action = rng.coin() ? CB_STOP : CB_ERROR; p.cbs.push_back(cf);
+        p.cfg.set("c16_cbfault", 1);
     }
     std::vector<Extent> m0, m1; for (auto &x : cp.xchg) { m0.push_back(x.req); m1.push_back(x.res); }
     static const size_t MEANS[] = {1, 2, 3, 5, 8, 16, 64, 512};
@@ -1637,7 +1662,8 @@ static bool check_c16(const Plan &p, const RunResult &r, std::string &oracle, st
         bool expect_mode = !is_connect || req_after;
         if (expect_mode && r.conns[0].pre_close_status[0] >= 0) {
             if (r.conns[0].pre_close_status[0] != 4) { oracle = "C16.request_side_not_in_tunnel_mode"; detail = strfmt("request stream state %d after all traffic was offered", r.conns[0].pre_close_status[0]); return false; }
-            if (r.conns[0].pre_close_status[1] != 4) { oracle = "C16.response_side_not_in_tunnel_mode"; detail = strfmt("response stream state %d after all traffic was offered", r.conns[0].pre_close_status[1]); return false; }
+            bool cbf = p.cfg.get("c16_cbfault", 0) != 0;   // the failing callback may have put the response direction into STOP / ERROR instead
+            if (r.conns[0].pre_close_status[1] != 4 && !(cbf && (r.conns[0].pre_close_status[1] == 3 || r.conns[0].pre_close_status[1] == 6))) { oracle = "C16.response_side_not_in_tunnel_mode"; detail = strfmt("response stream state %d after all traffic was offered", r.conns[0].pre_close_status[1]); return false; }
         }
         if (r.conns[0].tx_count_at_tunnel >= 0 && (int) r.conns[0].txs.size() != r.conns[0].tx_count_at_tunnel) { oracle = "C16.transactions_created_in_tunnel_mode"; detail = strfmt("%d at tunnel start, %zu at the end", r.conns[0].tx_count_at_tunnel, r.conns[0].txs.size()); return false; }
         if (r.conns[0].txs.size() != ci + 1) { oracle = "C16.tx_count"; detail = strfmt("%zu transactions reported, %zu exchanges up to and including the tunnel set-up", r.conns[0].txs.size(), ci + 1); return false; }
